@@ -149,6 +149,19 @@ def generate(rng, tier):
                     if e_ >= s_:
                         yield ["splice", runs, new, s_, e_]
         yield ["append", runs, NEWS[0]]
+    # 4c. subjects in which a run occurs twice or three times with the same text AND attributes (a repeated token or
+    #     separator, f * n): what is cut must be found by position, not by value
+    X, P, S3 = ["x", list(ATTS[0])], ["(", list(ATTS[3])], [", ", list(ATTS[3])]
+    twins = [[X, [" = ", list(ATTS[3])], ["f", list(ATTS[1])], P, X, S3, X, [")", list(ATTS[3])]],
+             [["ab", list(ATTS[1])], ["-", list(ATTS[2])]] * 3]
+    for runs in twins:
+        runs = [list(r) for r in runs]
+        n = total(runs)
+        for new in (NEWS[0], NEWS[1], NEWS[3]):
+            for s_ in range(0, n + 1):
+                for e_ in sorted({s_, s_ + 1, s_ + 2, n - 1, n}):
+                    if e_ >= s_:
+                        yield ["splice", runs, new, s_, e_]
     # 5. outside the quantifier: negative start, end < start (model = implementation only)
     for _ in range(3000 if thorough else 300):
         runs = rng.choice(lays) if rng.random() < 0.7 else canon.rand_runs(rng)
